@@ -109,14 +109,15 @@ def _reducer_runs(chk, tier, select, faults):
     from nusym.runner import load_known
 
     known = [k for k in load_known(chk.pid) if k.get("harness") == "reducer"]
-    grid = [(1, 2), (2, 2)] if tier == "quick" else [(1, 3), (2, 3), (3, 2)]
+    # (workers, max solutions per worker, spurious time-outs allowed per run)
+    grid = [(1, 2, 2), (2, 2, 1), (2, 1, 2)] if tier == "quick" else [(1, 3, 2), (2, 3, 1), (2, 2, 2), (3, 1, 2), (3, 2, 0)]
     if faults and tier == "quick":
-        grid = [(1, 1), (2, 1)]
+        grid = [(1, 1, 1), (2, 1, 1)]
     elif faults:
-        grid = [(1, 2), (2, 2), (3, 1)]
+        grid = [(1, 2, 1), (2, 2, 1), (3, 1, 1)]
     for mode in ("solve", "minimize", "maximize"):
-        for workers, K in grid:
-            r = chk.explore("reducer", dict(mode=mode, workers=workers, K=K, faults=faults, spurious=1, select=list(select), known=known), f"{mode}/workers={workers}/K={K}/faults={faults}", time_limit=1500 if tier == "quick" else 7200)
+        for workers, K, sp in grid:
+            r = chk.explore("reducer", dict(mode=mode, workers=workers, K=K, faults=faults, spurious=sp, select=list(select), known=known), f"{mode}/workers={workers}/K={K}/faults={faults}/spurious={sp}", time_limit=1500 if tier == "quick" else 7200)
             if not faults:
                 chk.require(f"{mode}/{workers}", r.acc.counts.get("returned", 0) > 0, "no healthy run returned")
     chk.functions.update(["nucs.solvers.multiprocessing_solver.MultiprocessingSolver.solve", "MultiprocessingSolver.optimize", "MultiprocessingSolver.minimize", "MultiprocessingSolver.maximize", "MultiprocessingSolver.get_statistics", "sum_stats", "max_stats"])
